@@ -113,7 +113,7 @@ func enumWorker(t *testing.T, prop string, seed0, stride int64, count int, budge
 			forced := map[int]string{j: kind}
 			res := RunOne(t, ReplayTape(base.Choices), seed, RunOpts{Property: prop, Mutate: quiet, Forced: forced})
 			res.Probes["enum.positions"] = 1
-			if res.Digest != base.Digest && res.EndReason == "quiescent" {
+			if prop == "C06" && res.Digest != base.Digest && res.EndReason == "quiescent" {
 				res.Violations = append(res.Violations, Violation{Property: "C06", Oracle: "D1-final-state", Sig: "D1/" + res.Scenario.Family + "/" + kind + "|ev=",
 					Seq: uint64(j), Detail: fmt.Sprintf("after %s at call %d the run ends in a different cluster state than the undisturbed run:\n  faulty : %s\n  clean  : %s", kind, j, res.Digest, base.Digest)})
 			}
